@@ -54,8 +54,10 @@ ASSUMPTIONS = [
     "hemispherical meniscus r1=r2=r, cylindrical and hemicylindrical meniscus r1=r, r2=inf; R = k_B N_A (SI 2019); "
     "compared at rel 1e-10 (raw / user adsorbates) or 1e-9 (registry adsorbates, CoolProp PropsSI vs AbstractState)",
     "Kelvin-KJS = 2 gamma V_m / (R T ln(p0/p)) + 0.3 nm (Kruk, Jaroniec, Sayari 1997), cylindrical meniscus only",
-    "the adsorbed-layer thickness is whatever the chosen thickness callable returns at the measured pressures (the "
-    "numerical content of the built-in thickness curves is not part of C16)",
+    "the adsorbed-layer thickness is what the chosen thickness model gives at the measured pressures: for Halsey and "
+    "Harkins-Jura the equation typed from the shipped module (0.354 (-5/ln p)^0.333 nm; (0.1399/(0.034 - log10 p))^0.5 nm), "
+    "for the two tabulated curves and user callables whatever the callable returns (the tables' numerical content is not "
+    "part of C16)",
     "widths: rel 1e-12 (elementwise re-evaluation of the same callables; 1e-9 with registry adsorbates); zero "
     "thickness volumes: abs 1e-12*max|V| (the arithmetic is exact); distribution clause: |dist*dw - V| <= "
     "4*tolW*|dist|*w_max + 1e-12*|V| (propagates the width tolerance through the difference of two widths)",
@@ -127,6 +129,13 @@ def make_thickness(td):
     """-> (argument to hand to the library, callable for the harness, is_zero)"""
     if td["kind"] == "builtin":
         fn = mt.get_thickness_model(td["name"])
+        # the two curves given by an equation are typed here from the shipped module (Halsey 0.354 (-5/ln p)^0.333 nm,
+        # Harkins-Jura (0.1399 / (0.034 - log10 p))^0.5 nm): the layer thickness the widths are judged against does not
+        # come from the library then
+        if td["name"] == "Halsey":
+            return fn, (lambda p: 0.354 * (-5.0 / np.log(np.asarray(p, dtype=float))) ** 0.333), False
+        if td["name"] == "Harkins/Jura":
+            return fn, (lambda p: (0.1399 / (0.034 - np.log10(np.asarray(p, dtype=float)))) ** 0.5), False
         return fn, fn, td["name"] == "zero thickness"
     a = td["a"]
     form = td["form"]
